@@ -183,6 +183,30 @@ func checkC11(e *Env) {
 				gm.variants = append(gm.variants, c11variant{m: n[0], p: "", form: "NFKD"})
 				emitGroup(gm)
 			}
+			// a character that NFKD changes placed across every power-of-two byte offset a
+			// chunked or windowed normaliser could cut at (the salt carries an 8-byte prefix, so
+			// the offsets run from 12 bytes before the boundary to one byte after it)
+			bounds := []int{1024, 4096, 8192, 65536}
+			if e.Thorough() {
+				bounds = []int{64, 128, 256, 512, 1024, 2048, 4096, 8192, 16384, 32768, 65536, 1 << 17}
+			}
+			for _, B := range bounds {
+				var ss []string
+				for d := -12; d <= 1; d++ {
+					for _, c := range []string{"\u00e9", "\uac00", "\U0001d15e", "\u01c4"} {
+						ss = append(ss, strings.Repeat("a", B+d)+c+"bbbbb")
+					}
+				}
+				nf, _ := py.Normalize("NFKD", ss)
+				for i, s := range ss {
+					gp := &c11group{lang: -1, kind: "decomposable-character-across-a-power-of-two-offset-passphrase", bm: "x", bp: s}
+					gp.variants = append(gp.variants, c11variant{m: "x", p: nf[i], form: "NFKD"})
+					emitGroup(gp)
+					gm := &c11group{lang: -1, kind: "decomposable-character-across-a-power-of-two-offset-mnemonic", bm: s, bp: ""}
+					gm.variants = append(gm.variants, c11variant{m: nf[i], p: "", form: "NFKD"})
+					emitGroup(gm)
+				}
+			}
 		}
 		// passphrases (and mnemonic positions) from the combining/compatibility generators, two spellings
 		n := e.pick(400, 20000)
@@ -384,7 +408,7 @@ func checkC11(e *Env) {
 		"evaluations":                      stats.Ops,
 		"distinct_nontrivial":              nontrivial.Len(),
 		"calls_repeated_under_concurrency": concCalls,
-		"rule":                             "a case is a pair of (mnemonic, passphrase) pairs with component-wise equal NFKD forms according to CPython (pairs failing the precondition are skipped and counted): sentences containing every list word of every language spelled in NFC/NFD/NFKC/NFKD/single-code-point pre-images/mixed, joined by U+0020, U+3000 or another space-like code point (Japanese always with both separators); passphrases and free-form mnemonics from the compatibility/combining generators in their four normal forms and a random pre-image respelling; the baseline of every group is also compared with the reference seed; non-trivial = the spellings differ bytewise; distinct by the four strings",
+		"rule":                             "a case is a pair of (mnemonic, passphrase) pairs with component-wise equal NFKD forms according to CPython (pairs failing the precondition are skipped and counted): sentences containing every list word of every language spelled in NFC/NFD/NFKC/NFKD/single-code-point pre-images/mixed, joined by U+0020, U+3000 or another space-like code point (Japanese always with both separators); passphrases and free-form mnemonics from the compatibility/combining generators in their four normal forms and a random pre-image respelling; a decomposable character (2-, 3- and 4-byte, and a digraph) placed at every byte offset from 12 before to 1 after the powers of two 1024, 4096, 8192, 65536 (thorough: 64..2^17), as mnemonic and as passphrase; the baseline of every group is also compared with the reference seed; non-trivial = the spellings differ bytewise; distinct by the four strings",
 		"samples":                          smp.List(),
 		"pairs_compared":                   pairs.Map(),
 		"pairs_skipped":                    skipped.Map(),
